@@ -40,6 +40,10 @@ Load(t) == /\ t \in todo
 \* jinja's look-ups happen in one fixed order; the final state does not depend on it (the walk is confluent), so one order is explored
 Next == todo # {} /\ Load(CHOOSE t \in todo : TRUE)
 Spec == Init /\ [][Next]_vars
+\* every look-up order (jinja's order depends on the rendering context: which property kinds a model has); T1-T3 in every state of this
+\* larger graph show that the walk is confluent - whatever the order, the same templates are loaded from the same loaders
+NextAny == \E t \in todo : Load(t)
+SpecAny == Init /\ [][NextAny]_vars
 
 Finished == todo = {}
 Touched  == \E t \in DOMAIN loaded : loaded[t] = "custom"
